@@ -49,7 +49,7 @@ func c13paths() []c13path {
 				for q := int32(0); q <= 2; q++ {
 					for _, r := range []bool{false, true} {
 						for _, mp := range []string{"", "m1"} {
-							for _, c := range []string{"disconnect", "drop", "keepalive", "protocol-error", "leave", "disconnect-then-leave-reordered-gossip", "leave-detected-500ms-apart", "disconnect-removal-lost-fullstate-then-leave", "drop-while-other-nodes-unreachable"} {
+							for _, c := range []string{"disconnect", "drop", "keepalive", "protocol-error", "leave", "disconnect-then-leave-reordered-gossip", "leave-detected-500ms-apart", "disconnect-removal-lost-fullstate-then-leave", "drop-while-other-nodes-unreachable", "connect-answer-lost"} {
 								if strings.Contains(c, "leave") && (n == 1 || (len(ws) == 1 && ws[0] == 1)) {
 									continue
 								}
@@ -60,8 +60,8 @@ func c13paths() []c13path {
 									continue
 								}
 								out = append(out, c13path{n, ws, tp, q, r, mp, c, "last-words"})
-								if q == 1 && !r {
-									out = append(out, c13path{n, ws, tp, q, r, mp, c, ""}) // an empty will payload is legal
+								if q == 1 {
+									out = append(out, c13path{n, ws, tp, q, r, mp, c, ""}) // an empty will payload is legal (retained: it also clears the topic)
 								}
 							}
 						}
@@ -113,7 +113,13 @@ func TestC13Wills(t *testing.T) {
 					w.GossipHold = func(int) bool { return true } // the dying session's record and its removal travel late
 				}
 				d := w.NewClient("dying", 1, AckAll)
-				if d.Connect(ConnectOpts{ClientID: "dying", KeepAlive: 2, User: user, WillTopic: p.Topic, WillMsg: p.Payload, WillQos: p.Qos, WillRetain: p.Retain}) != 0 {
+				if p.Cause == "connect-answer-lost" {
+					w.Step() // the watchers' subscriptions are known everywhere before the session exists (it dies at once)
+					// the CONNECT is accepted, but the connection breaks before the CONNACK can be written: the session died
+					// without DISCONNECT like any other
+					d.FailBrokerWrites(true)
+					d.Connect(ConnectOpts{ClientID: "dying", KeepAlive: 2, User: user, WillTopic: p.Topic, WillMsg: p.Payload, WillQos: p.Qos, WillRetain: p.Retain})
+				} else if d.Connect(ConnectOpts{ClientID: "dying", KeepAlive: 2, User: user, WillTopic: p.Topic, WillMsg: p.Payload, WillQos: p.Qos, WillRetain: p.Retain}) != 0 {
 					rep.HarnessError("connect")
 					return
 				}
@@ -126,7 +132,7 @@ func TestC13Wills(t *testing.T) {
 				switch p.Cause {
 				case "disconnect":
 					d.Disconnect()
-				case "drop":
+				case "drop", "connect-answer-lost":
 					d.Drop()
 				case "drop-while-other-nodes-unreachable":
 					// the other nodes stopped answering but have not been declared failed yet: their watchers' subscriptions are
@@ -250,7 +256,7 @@ func TestC13Wills(t *testing.T) {
 		},
 		func(i int) any { return paths[i] },
 		func(rep *vk.Report) {
-			rep.Rule = "full cross product of nodes (1-2 quick, 1-3 thorough) x non-empty subset of watcher nodes x will topic {w, w/x} x QoS {0,1,2} x retain x mount point {default, m1} x cause {disconnect, drop, keep-alive expiry, protocol error, failure of the hosting node, drop while the other nodes do not answer}; three watchers (w, w/+, #) per watcher node plus one in another mount point; non-trivial = paths where a will was due"
+			rep.Rule = "full cross product of nodes (1-2 quick, 1-3 thorough) x non-empty subset of watcher nodes x will topic {w, w/x} x QoS {0,1,2} x retain x mount point {default, m1} x cause {disconnect, drop, keep-alive expiry, protocol error, failure of the hosting node, drop while the other nodes do not answer, connection lost before the CONNACK was written}; three watchers (w, w/+, #) per watcher node plus one in another mount point; non-trivial = paths where a will was due"
 			rep.Floor("wills_due", 50, rep.Nontrivial)
 		})
 }
